@@ -23,6 +23,7 @@ CONF_LOGGERS = ["a::b", "a::b ", " a::b", "a::b\t", "A::b", "a::B", "a ::b", "a:
 
 ASSUMPTIONS = ["appender identity is observed through the recording appender's Debug output",
                "error ORDER is not constrained by the property: errors are compared as multisets"]
+RELEASE_TOO = True          # the sampled cases also run through the release-profile harness (see ./check)
 EXHAUSTIVE = {"quick": False, "thorough": False}
 
 
